@@ -47,7 +47,10 @@ structure St where
   tn : Tn := {}
 deriving Repr, DecidableEq, Inhabited
 
-inductive EvK | ok | drop | stall | refuse | authFail
+/-- `stallKeep`: the step ends in ScrapliTimeout with the transport left as it is — `Settings.NO_TERMINATE_ON_TIMEOUT`
+    (decorators.py `_handle_timeout`: the `transport.close()` is skipped), or the transport's own read raising
+    ScrapliTimeout (telnet/transport.py `_read`: socket.timeout -> ScrapliTimeout; no handler involved) -/
+inductive EvK | ok | drop | stall | refuse | authFail | stallKeep
 deriving Repr, DecidableEq, Inhabited
 
 /-- one environment event; `tn` = `none` when the step never reached `recv()`, otherwise what the
@@ -195,6 +198,8 @@ def interact (cfg : Cfg) (reads : Bool) (tag : String) (s : St) (tape : List Ev)
           if tcloseFails cfg s then ⟨.raises .closeError, s, rest, [tag]⟩
           else ⟨.raises .timeout, transportClose cfg s, rest, [tag]⟩
         else ⟨.returns, s, rest, [tag]⟩
+      -- ScrapliTimeout without the closing handler: nothing is closed
+      | .stallKeep => ⟨if reads then .raises .timeout else .returns, s, rest, [tag]⟩
       -- the device refuses the login (prompt seen a third time, "Permission denied"): the step raises
       -- ScrapliAuthenticationFailed with the transport up and the session alive (sync_channel.py:309-312, 401-404)
       | .authFail => ⟨.raises .authFailed, s, rest, [tag]⟩
@@ -321,12 +326,28 @@ def execStmt1 (cfg : Cfg) (st : Stmt) (s : St) (tape : List Ev) : R :=
   | st => execStmt0 cfg st s tape
 
 def runEnter (cfg : Cfg) (s : St) (tape : List Ev) : R := execProg (execStmt1 cfg) cfg cfg.code.enterP s tape
-def runExit (cfg : Cfg) (s : St) (tape : List Ev) : R := execProg (execStmt1 cfg) cfg cfg.code.exitP s tape
+
+/-- the statements `__exit__(exception_type, …)` runs for a with-body that ended with `pending`: the first early-return
+    branch whose class test the pending exception passes, else the main program -/
+def exitProg (c : Code) (pending : Outcome) : Prog :=
+  match pending with
+  | .returns => c.exitP
+  | .raises e =>
+    match c.exitOn.find? (fun p => p.1.selects e) with
+    | some p => p.2
+    | none => c.exitP
+
+/-- `__exit__` / `__aexit__`; input: how the with-body ended (`exception_type`) -/
+def runExit (cfg : Cfg) (pending : Outcome) (s : St) (tape : List Ev) : R :=
+  execProg (execStmt1 cfg) cfg (exitProg cfg.code pending) s tape
 
 /-! ### operations a user script performs -/
 
 /-- what the body of a with-block may do with the connection -/
-inductive BodyOp | operate | close | open | raise
+inductive BodyOp
+  | operate | close | open
+  | raise                    -- the harness' BodyError
+  | raiseExc (e : Exc)       -- user code raising one specific class (scrapli classes, ValueError, KeyboardInterrupt, CancelledError …)
 deriving Repr, DecidableEq, Inhabited
 
 inductive Op
@@ -351,6 +372,7 @@ def runBodyOp (cfg : Cfg) (b : BodyOp) (s : St) (tape : List Ev) : R :=
   | .close => opClose cfg s tape
   | .open => opOpen cfg s tape
   | .raise => ⟨.raises .bodyError, s, tape, ["raise"]⟩
+  | .raiseExc e => ⟨.raises e, s, tape, ["raise"]⟩
 
 /-- the body runs until its first exception, which then leaves the block -/
 def runBody (cfg : Cfg) : List BodyOp → St → List Ev → R
@@ -369,7 +391,7 @@ def opWith (cfg : Cfg) (body : List BodyOp) (s : St) (tape : List Ev) : R :=
   if !r1.ok then { r1 with st := { r1.st with needClose := false }, tr := r1.tr ++ ["enter-raised"] }
   else
     let r2 := runBody cfg body r1.st r1.tape
-    let r3 := runExit cfg r2.st r2.tape
+    let r3 := runExit cfg r2.out r2.st r2.tape
     { out := if r3.ok then r2.out else r3.out
       st := { r3.st with needClose := false }
       tape := r3.tape
@@ -453,9 +475,9 @@ def openOf : Stack → Prog
   | .sync => openSync
   | .async => openAsync
 
-def codeOrig (st : Stack) : Code := ⟨openOf st, closeOrig st, enterP, exitP⟩
-def codeFixed (st : Stack) : Code := ⟨openOf st, closeFixed st, enterP, exitP⟩
-def codeFixed2 (st : Stack) : Code := ⟨openOf st, closeFixed2 st, enterP2, exitP⟩
+def codeOrig (st : Stack) : Code := ⟨openOf st, closeOrig st, enterP, exitP, []⟩
+def codeFixed (st : Stack) : Code := ⟨openOf st, closeFixed st, enterP, exitP, []⟩
+def codeFixed2 (st : Stack) : Code := ⟨openOf st, closeFixed2 st, enterP2, exitP, []⟩
 
 def allFields : List TnField := [.eof, .raw, .cooked, .ctrl, .counter]
 
